@@ -81,6 +81,8 @@ def it_two(x):
     for e in i2:
         s = s + str(e) + ' '
     print('it', s)
+def kwcopy(**kw):
+    return kw
 def g_fail(n):
     for i in range(n):
         yield 20 + i
@@ -292,6 +294,10 @@ def dict_ops(full):
         add('rebind-copy-ctor', '%s = dict(%s)' % (x, y), x, True, True)
         add('rebind-copy-ctor-items', '%s = dict(%s.items())' % (x, y), x)
         add('rebind-copy-comp', '%s = {k: v for k, v in %s.items()}' % (x, y), x)
+        # every spelling of 'a new dict with the same items': through ** in the call, through ** with further keywords, through a function
+        add('rebind-copy-ctor-starstar', '%s = dict(**%s)' % (x, y), x)
+        add('rebind-copy-ctor-starstar-kw', '%s = dict(%s, **{"k9": 9})' % (x, y), x)
+        add('rebind-copy-through-call', '%s = kwcopy(**%s)' % (x, y), x)
         if full:
             add('rebind-copy-comp', '%s = {k: %s[k] for k in %s}' % (x, y, y), x)
             add('rebind-copy-ctor-pairs', '%s = dict([(k, %s[k]) for k in %s.keys()])' % (x, y, y), x)
